@@ -700,10 +700,17 @@ class QueueCollection(object):
 
         mergeable_prs = self._extract_pr_ids(self._queues)
 
-        if not self.force_merge:
+        candidates = None
+        while not self.force_merge and candidates != mergeable_prs:
+            # A pull request rejected on one merge path may be the one that
+            # was hiding a failed build on another path: look again at
+            # every path, with the current candidates only, until all
+            # paths agree.
+            candidates = mergeable_prs
             for merge_path in self.merge_paths:
                 versions = [branch.version_t for branch in merge_path]
                 stack = deepcopy(self._queues)
+                self._remove_unmergeable(candidates, stack)
                 # remove versions not on this merge_path from consideration
                 for version in list(stack.keys()):
                     # exclude hf version from this pop process
